@@ -52,6 +52,10 @@ def sh(cmd, cwd=None, timeout=None, env=None, input=None):
 # step 1: tables
 # ------------------------------------------------------------------------------------------------
 
+# seconds a line-protocol driver may take for one request before it is killed (C04: a hang is a result, not a wait)
+LINE_TIMEOUT = 240
+
+
 def regen_tables():
     """returns list of (table, ok, message)"""
     with BuildLock('lake'):
@@ -196,33 +200,63 @@ def cargo_build_ironplcc():
 # line-protocol drivers
 # ------------------------------------------------------------------------------------------------
 
-def run_lines(exe, lines, timeout=3600, chunk=None, jobs=1):
+def run_lines(exe, lines, timeout=3600, chunk=None, jobs=1, line_timeout=None, _budget=None):
     """send request lines to a line-protocol driver, return list of response lines (same length).
-    If the process dies, missing answers are 'DIED'."""
+    If the process dies, the answer of the request it died on is 'DIED rc=..'; if one request is not answered within
+    `line_timeout` seconds (default LINE_TIMEOUT) the process is killed and the answer is 'TIMEOUT <seconds>s'; the
+    remaining requests go to a fresh process.  After two timeouts in one batch the rest of the batch is answered
+    'SKIPPED repeated-timeouts' (a hang that many inputs trigger must not turn the check itself into a hang)."""
     if not lines:
         return []
+    if line_timeout is None: line_timeout = LINE_TIMEOUT
     if jobs > 1 and len(lines) >= 4 * jobs:
         import concurrent.futures as cf
         n = (len(lines) + jobs - 1) // jobs
         parts = [lines[i:i + n] for i in range(0, len(lines), n)]
         with cf.ThreadPoolExecutor(jobs) as ex:
-            outs = list(ex.map(lambda p: run_lines(exe, p, timeout), parts))
+            outs = list(ex.map(lambda p: run_lines(exe, p, timeout, line_timeout=line_timeout), parts))
         return [x for o in outs for x in o]
-    data = ('\n'.join(lines) + '\n').encode()
-    try:
-        p = subprocess.run([exe], input=data, capture_output=True, timeout=timeout)
-        out = p.stdout.decode('utf-8', 'replace').split('\n')
-        if out and out[-1] == '': out.pop()
-        rc = p.returncode
-    except subprocess.TimeoutExpired as e:
-        out = (e.stdout or b'').decode('utf-8', 'replace').split('\n')
-        if out and out[-1] == '': out.pop()
-        rc = 'timeout'
+    import threading, queue
+    if _budget is None: _budget = [2]
+    if _budget[0] <= 0:
+        return ['SKIPPED repeated-timeouts'] * len(lines)
+    out = []
+    p = subprocess.Popen([exe], stdin=subprocess.PIPE, stdout=subprocess.PIPE, stderr=subprocess.DEVNULL)
+    q = queue.Queue()
+    def reader():
+        for raw in p.stdout:
+            q.put(raw.decode('utf-8', 'replace').rstrip('\n'))
+        q.put(None)
+    def writer():
+        try:
+            p.stdin.write(('\n'.join(lines) + '\n').encode())
+            p.stdin.close()
+        except (BrokenPipeError, OSError):
+            pass
+    tr = threading.Thread(target=reader, daemon=True); tw = threading.Thread(target=writer, daemon=True)
+    tr.start(); tw.start()
+    status = None
+    while len(out) < len(lines):
+        try:
+            x = q.get(timeout=line_timeout)
+        except queue.Empty:
+            p.kill(); status = f'TIMEOUT {line_timeout}s'
+            _budget[0] -= 1
+            break
+        if x is None:
+            p.wait(); status = f'DIED rc={p.returncode}'
+            break
+        out.append(x)
+    if status is None:
+        try: p.wait(timeout=30)
+        except subprocess.TimeoutExpired: p.kill()
+    else:
+        try: p.wait(timeout=30)
+        except subprocess.TimeoutExpired: pass
     if len(out) < len(lines):
-        # the process died (abort / stack overflow) on request len(out): mark it, continue after it
         k = len(out)
-        out.append(f'DIED rc={rc}')
-        rest = run_lines(exe, lines[k + 1:], timeout) if k + 1 < len(lines) else []
+        out.append(status or f'DIED rc={p.returncode}')
+        rest = run_lines(exe, lines[k + 1:], timeout, line_timeout=line_timeout, _budget=_budget) if k + 1 < len(lines) else []
         out = out + rest
     return out[:len(lines)]
 
